@@ -136,6 +136,7 @@ def _mcs_post(c, r):
 Contract(
     "inference.optimizer:Optimizer.minimal_correction_subsets",
     params={"self": OPT, "wcnf": TSolverT, "ignore": TList(TInt), "deadline": DeadlineT},
+    defaults={"ignore": lambda ex: VList(LInt.nil, TInt), "deadline": lambda ex: VNone()},
     returns=TList(TList(TInt)),
     ensures=_mcs_post,
     raises={"TimeoutError": lambda c: z3.BoolVal(True)},
@@ -650,12 +651,25 @@ def _cnf_inv_only(c, selfname="self"):
     )
 
 
+def _cnf_inv_v(c, selfname="self"):
+    """(only when asked for, v=True) verification clause lists denote ver of their conditional"""
+    d = _val(c, selfname)
+    v = _es(c, "v_cnf_dict", selfname)
+    k = z3.Int("_ies3_k")
+    return L.Forall(
+        [k],
+        [L.mem_Int(d.keys, k)],
+        z3.Implies(z3.And(c.v.t, L.mem_Int(d.keys, k)), z3.And(L.mem_Int(v.keys, k), Den(z3.Select(v.val, k)) == L.ver(z3.Select(d.val, k)))),
+        "Inv_es.cnf.v",
+    )
+
+
 Contract(
     "inference.tseitin_transformation:TseitinTransformation.belief_base_to_cnf",
     params={"self": TS_PRE, "v": TBool, "f": TBool, "nf": TBool},
     returns=TFloat,
     requires=lambda c: [c.f.t, c.nf.t],
-    ensures=lambda c, r: [_cnf_inv_only(c)],
+    ensures=lambda c, r: [_cnf_inv_only(c), _cnf_inv_v(c)],
     modifies=["self.epistemic_state.f_cnf_dict", "self.epistemic_state.nf_cnf_dict", "self.epistemic_state.v_cnf_dict"],
     trusted=True,
     note="ASSUMED (C15 part 1): after the call every base key has falsification / non-falsification clause lists that denote fal / nf of its conditional; truth-table checked by module c15",
